@@ -88,6 +88,21 @@ def run(rep):
     rep.run(early_returns)
     rep.run(fallback_and_dispatch)
     rep.run(limits)
+    rep.run(local_caches)
+
+
+def local_caches(rep):
+    """a cache that lives across pattern atoms / components inside one strategy must be keyed by everything the cached candidates depend on:
+    a key that is a projection of the pattern atom's data on the selected attributes does not hold `hcount`, which the node predicate compares"""
+    from ..rules.memo import projection_key_sites
+    n = 0
+    for q in STRATS + ["find_subgraph_mappings", "_quick_pre_filter"]:
+        fi = rep.f(SM, ENG + q)
+        for node, why in projection_key_sites(fi):
+            n += 1
+            rep.ob("O6.2", "R1", fi, None if why.startswith("UNDECIDED") else False, node, "candidates cached inside a strategy are keyed by all the predicate reads: " + why, node=node)
+    if not n:
+        rep.ob("O6.2", "R1", f"{SM}:strategies", True, f"{len(STRATS) + 2} functions", "no strategy caches candidates under a key that is only a projection of the atom it was computed for")
 
 
 def nonmut(rep):
@@ -115,6 +130,16 @@ def predicates_and_roles(rep):
             ok = True if (r1, r2) == ("HOST", "PATTERN") else (False if (r1, r2) == ("PATTERN", "HOST") else None)
             rep.ob("O6.3", "R2", fi, ok, s.call, "the matcher is built host-first (networkx embeds G2 into G1)",
                    {"G1": norm(s.g1), "role_G1": r1, "G2": norm(s.g2), "role_G2": r2}, node=s.call)
+            if q == STRATS[0]:
+                # the exhaustive strategy searches the whole host: a matcher built on a restriction of it (one component, a sub-view) cannot return
+                # the embeddings of a disconnected pattern that spread over several parts
+                from ..rules import provenance as PV
+                d1 = local_defs(fi.node)
+                parts = [r for r in PV.all_roots(d1, s.g1) if isinstance(r, ast.Call) and call_name(r) in ("subgraph", "induced_subgraph", "edge_subgraph", "subgraph_view")
+                         and M.role(fi, r, defs) in ("HOST", "BOTH")]
+                if parts:
+                    rep.ob("O6.3", "R2", fi, False, parts[0], "the exhaustive strategy enumerates in the whole host (here the matcher is built on a part of it: embeddings of a "
+                           "disconnected pattern that use several parts are never produced)", node=s.call)
             meths = [m for m, _ in s.methods]
             rep.ob("O6.3", "R2", fi, bool(meths) and all(m == "subgraph_monomorphisms_iter" for m in meths),
                    f"{s.var}.{meths}", "matches are enumerated as monomorphisms (non-induced), exhaustively",
